@@ -251,7 +251,7 @@ def boundary_cases():
     out.append(("update-cheap-osqth", mk([[1, v("1.2", 10)]]), E(osqth="0.01"), {"k": "update"}))
     # LP collateral: position entirely in oSQTH / entirely in WETH / around
     pos = lambda liq, p0="0", p1="0", tr=True: {"liquidity": liq, "p0": D(p0), "p1": D(p1), "transferred": tr}  # noqa: E731
-    for name, key in (("lp-around", [21000, 25020]), ("lp-all-osqth", [24000, 25020]), ("lp-all-weth", [18000, 21000])):
+    for name, key in (("lp-around", [21000, 25020]), ("lp-above-all-weth", [24000, 25020]), ("lp-below-all-osqth", [18000, 21000])):
         for coll, short in (("0", "6"), ("0.2", "12"), ("1", "30"), ("0.3", "3")):
             out.append((f"update-{name}-{coll}-{short}", mk([[1, v(coll, short, key)]], [[key, pos(10 ** 19, "0.01", "0.2")]]), E(), {"k": "update"}))
         out.append((f"withdraw-{name}", mk([[1, v("1", "8", key)]], [[key, pos(10 ** 19)]]), E(), {"k": "withdrawUni", "vk": 1, "pos": key}))
